@@ -1,6 +1,7 @@
 package c14
 
 import (
+	"strings"
 	"testing"
 
 	"github.com/0xReLogic/Helios/verifharness/lab"
@@ -8,7 +9,7 @@ import (
 )
 
 const stubRule = "rapid: size_limit at a drawn position among logging/headers, limits 1..64 (plus 100..65536 and omitted=default) written as YAML int, YAML float or int64 and loaded through yaml.v3; " +
-	"1-3 exchanges per lab against a stub terminal handler: request GET/HEAD/DELETE without body or POST/PUT/PATCH with a body of 0, L-1, L, L+1, 3L or 100 KiB (1 MiB in thorough) in Content-Length or chunked framing (<=4 writes/chunks); " +
+	"1-6 (thorough 1-12) exchanges per lab (one kept-alive client connection) against a stub terminal handler: request GET/HEAD/DELETE without body or POST/PUT/PATCH with a body of 0, L-1, L, L+1, 3L or 100 KiB (1 MiB in thorough) in Content-Length or chunked framing (<=4 writes/chunks); " +
 	"handler program = header set, optional declared Content-Length, implicit or explicit WriteHeader (15 statuses incl. 204/304/3xx/4xx/5xx), body of 0, M-1, M, M+1, 3M or 100 KiB split into <=4 Writes, Flush drawn before/between/after the writes, stop or continue after a failed Write; " +
 	"oracle R1-R3, S1-S2 and differential U against the same chain without size_limit; non-trivial = a body length within +-1 of its limit, a bodiless status, HEAD, or >= 2 writes"
 
@@ -35,32 +36,33 @@ func TestC14StubRapid(t *testing.T) {
 	sub.Floor("plugin-wraps-others", 0.15)
 	sub.Floor("yaml-float", 0.10)
 	lab.Assume("L2 with a stub terminal: the plugin chain is built by plugins.BuildChain from YAML-loaded configuration and served by a real http.Server on loopback exactly as cmd/helios/server.go composes it; the stub stands where the balancer stands. 'Unchanged' is decided against the same exchange through the same chain without size_limit (net/http's own additions - Date, computed Content-Length, sniffed Content-Type - are identical on both sides). The 413 text the plugin itself sends for a rejected request is not counted as response body.")
-	lab.Check(t, sub, 4500, 150000, func(rt *rapid.T) {
+	lab.Check(t, sub, 8000, 200000, func(rt *rapid.T) {
 		ch := genChain(rt)
 		pcWith, err := ch.Plugins(true)
 		if err != nil {
 			rt.Fatalf("harness: yaml: %v\n%s", err, ch.YAML(true))
 		}
-		pcWithout, err := ch.Plugins(false)
-		if err != nil {
-			rt.Fatalf("harness: yaml: %v\n%s", err, ch.YAML(false))
-		}
 		with, err := NewStubLab(pcWith)
+		if resourceError(err) {
+			Inconclusive(rt, "stub-terminal-rapid", err.Error())
+		}
 		if err != nil {
 			rt.Fatalf("a valid size_limit configuration was refused: %v\n%s", err, ch.YAML(true))
 		}
 		defer with.Close()
-		without, err := NewStubLab(pcWithout)
+		without, err := RefStubLab(ch)
 		if err != nil {
-			rt.Fatalf("harness: %v", err)
+			Inconclusive(rt, "stub-terminal-rapid", err.Error())
 		}
-		defer without.Close()
-		n := rapid.IntRange(1, 3).Draw(rt, "exchanges")
+		n := rapid.IntRange(1, lab.Scale(6, 12)).Draw(rt, "exchanges")
 		for i := 0; i < n; i++ {
 			c := StubCase{Chain: ch}
 			c.Req = genRequest(rt, ch, true)
 			c.Prog = genProgram(rt, ch, c.Req.Method)
 			v := JudgeStub(&c, with, without)
+			if strings.HasPrefix(v.Viol, "harness:") {
+				Inconclusive(rt, "stub-terminal-rapid", v.Viol)
+			}
 			if v.Excluded != "" {
 				sub.Excluded(v.Excluded)
 			}
